@@ -1301,7 +1301,7 @@ namespace regex
             {
                 for (size_t j = s.start; j < s.start + s.n; ++j)
                 {
-                    if (sm[j].start_state)
+                    if (j == s.start)
                     {
                         for (auto& t : sm[j].transitions)
                             t = uninitialized16;
@@ -1309,7 +1309,12 @@ namespace regex
                         sm[j].start_state = 0;
                     }
                     else
+                    {
+                        for (auto& t : sm[j].transitions)
+                            t = uninitialized16;
+                        sm[j].end_state = 0;
                         sm[j].unreachable = 1;
+                    }
                 }
                 return s;
             }
